@@ -152,4 +152,67 @@ theorem planePositionTiledFull_uses_z (ri ci tr tc : Int) (g : Geo) (z3d : Optio
       simp [(planePositionZ_eq si sbs).1]
 
 
+/-! ## The reader's frame table and the wrapper describe the same frames -/
+
+/-- (channel, column position, row position) of every item of the per-frame data do not depend on the geometry, the spacing
+between slices or the z origin: channels outermost, focal planes next, the row-major grid innermost -/
+theorem iterTiledFull_offsets (channels : List (Option Int)) (planes tr tc R C : Int) (g : Geo) (sbs : Rat)
+    (hr : 1 ≤ tr) (hc : 1 ≤ tc) (hR : 1 ≤ R) (hC : 1 ≤ C) :
+    ∃ l, iterTiledFull channels planes tr tc R C g sbs = .ok l ∧
+      l.map (fun x => (x.1, x.2.2.1, x.2.2.2.1)) =
+        (channels.flatMap (fun ch => (iota planes).map (fun p => (ch, p + 1)))).flatMap (fun chp =>
+          (gridPos R C tr tc).map (fun p => (chp.1, p.2, p.1))) := by
+  refine ⟨_, iterTiledFull_eq channels planes tr tc R C g sbs hr hc hR hC, ?_⟩
+  rw [List.map_flatMap]
+  congr 1
+  funext chp
+  unfold iterChunk
+  rw [List.map_map]
+  have h := tpOf_fst tr tc R C { g with oz := g.oz + ((chp.2 - 1 : Int) : Rat) * sbs }
+  have : (tpOf tr tc R C { g with oz := g.oz + ((chp.2 - 1 : Int) : Rat) * sbs }).map
+      ((fun x : Option Int × Int × Int × Int × Rat × Rat × Rat => (x.1, x.2.2.1, x.2.2.2.1)) ∘
+        (fun p : (Int × Int) × (Rat × Rat × Rat) => (chp.1, chp.2, p.1.1, p.1.2, p.2.1, p.2.2.1, p.2.2.2))) =
+      ((tpOf tr tc R C { g with oz := g.oz + ((chp.2 - 1 : Int) : Rat) * sbs }).map Prod.fst).map (fun o => (chp.1, o.1, o.2)) := by
+    rw [List.map_map]; rfl
+  rw [this, h, List.map_map]
+  rfl
+
+/-- **frame table ↔ wrapper**: row `n` of the table a reader derives for a TILED_FULL image (`_Image`'s own position look-up,
+any number of channels and focal planes) and the `n`-th plane position of `compute_plane_position_slide_per_frame` (any geometry)
+carry the same pixel matrix position; the row's frame index is `n`. -/
+theorem tiledFullLut_agrees_with_slidePerFrame (channels : List (Option Int)) (planes tr tc R C : Int) (g : Geo) (sbs : Rat)
+    (hr : 1 ≤ tr) (hc : 1 ≤ tc) (hR : 1 ≤ R) (hC : 1 ≤ C) :
+    ∃ lut L, tiledFullLut channels planes tr tc R C = .ok lut ∧ slidePerFrame channels planes tr tc R C g sbs = .ok L ∧
+      lut.length = L.length ∧
+      ∀ (n : Nat) (row : LutRow) (cp rp : Int) (x y z : Rat), lut[n]? = some row → L[n]? = some (cp, rp, x, y, z) →
+        row.rp = rp ∧ row.cp = cp ∧ row.fi = n := by
+  obtain ⟨l0, h0, e0⟩ := iterTiledFull_offsets channels planes tr tc R C ⟨0, 0, 0, 1, 0, 0, 0, 1, 0, 1, 1⟩ 1 hr hc hR hC
+  obtain ⟨l, h1, e1⟩ := iterTiledFull_offsets channels planes tr tc R C g sbs hr hc hR hC
+  have hmap : l0.map (fun x => (x.1, x.2.2.1, x.2.2.2.1)) = l.map (fun x => (x.1, x.2.2.1, x.2.2.2.1)) := by rw [e0, e1]
+  have hlen : l0.length = l.length := by
+    have := congrArg List.length hmap
+    simpa using this
+  refine ⟨_, _, by unfold tiledFullLut; rw [h0], slidePerFrame_eq channels planes tr tc R C g sbs l h1, by simp [hlen], ?_⟩
+  intro n row cp rp x y z hrow hL
+  rw [List.getElem?_map, List.getElem?_zipIdx] at hrow
+  rw [List.getElem?_map] at hL
+  cases hx0 : l0[n]? with
+  | none => rw [hx0] at hrow; simp at hrow
+  | some it0 =>
+    cases hx : l[n]? with
+    | none => rw [hx] at hL; simp at hL
+    | some it =>
+      rw [hx0] at hrow
+      rw [hx] at hL
+      simp only [Option.map_some, Option.some.injEq] at hrow hL
+      have hn := congrArg (fun m => m[n]?) hmap
+      simp only [List.getElem?_map, hx0, hx, Option.map_some, Option.some.injEq, Prod.mk.injEq] at hn
+      obtain ⟨ch, p, a, b, c, d, e⟩ := it
+      simp only [Prod.mk.injEq] at hL
+      obtain ⟨rfl, rfl, _⟩ := hL
+      subst hrow
+      simp only at hn ⊢
+      exact ⟨hn.2.2, hn.2.1, by omega⟩
+
+
 end HdVerif.TilingLemmas
